@@ -87,6 +87,13 @@ CHECKS['C09'] = dict(text="Theorems over the Apply model (every interleaving of 
   "before or after stop_and_join, extras). Partial: _set is one atomic step per object; the window in which results handler and "
   "timeout handler both fetch the object from the cache is not modelled (see DESIGN, adjacent finding D19).", ref="5/C09",
   technique="Coq proof (per-job invariant over all interleavings, _set translated from source) + submission-batch oracle")
+CHECKS['C15'] = dict(text="Theorems (Core, all schedules, every max_tasks_active >= 1 incl. below the chunk size, any consumer pace): "
+  "the input iterator is advanced only while the number of tasks handed out and not yet returned is at most the bound, so "
+  "drawn-minus-delivered never exceeds max_tasks_active + chunk size - 1 (lookahead_bound), and main draws nothing while it is "
+  "not being asked (generator protocol: dispatch happens inside next()). Tie: the pre-draw wait and dispatch guards regenerated "
+  "from pool.py, instance logs replayed through Core.step, and counting wrappers around the input generator and the consumer "
+  "loop on the real pool (fast / slow / bursty consumers, known and unknown length, 4 start methods).", ref="5/C15",
+  technique="Coq proof (look-ahead invariant over all schedules, guards generated from source) + counting-wrapper oracle")
 PENDING = {}
 props = [json.loads(l) for l in open(os.path.join(V, 'properties.jsonl'))]
 m = dict(version=1,
